@@ -64,6 +64,7 @@ type G struct {
 	pc        [1]uintptr
 	declSync  int64
 	wakeSync  int64
+	hbSlot    *int64
 	nops      int
 }
 
